@@ -136,6 +136,15 @@ def check(prop, tier):
     if not res["design"]["ok"]:
         raise Inconclusive("TLC rejects the codec model Pickle.tla (Repush=%s): %s" % (res["repush"], res["design"]["errors"]))
     viols = [dict(v, sig=sig_of(v)) for v in res["violations"] if v["prop"] == prop]
+    records = 0
+    if prop == "C15":
+        # the on-disk half: corrupted record files, exercised by the fingerprint harness
+        import fam_fp
+        res2 = vlib.FamilyRun("fp", tier).get(lambda: fam_fp.pipeline(tier))
+        records = res2["calls"].get("Record", 0)
+        for v in res2["violations"]:
+            if v["prop"] == "C15":
+                viols.append(dict(v, sig="C15|%s|%s" % (v["what"], v["event"].get("kind"))))
     if prop == "C07":
         n = res["calls"].get("RoundTrip", 0)
         distinct = res["distinct_values"]
@@ -150,9 +159,10 @@ def check(prop, tier):
         "model_scopes": {"heaps_checked": res["design"]["heaps_states"], "op_strings_checked": res["design"]["ops_states"]},
         "model_cases_executed_on_real_codec": res["model_cases"], "real_calls": res["calls"],
         "evaluations": n, "distinct_nontrivial": distinct, "rule": rule, "exhaustive": False,
+        "corrupted_record_files_loaded_and_built": records,
         "family_wall_s": round(res["wall_s"], 1),
     }
     assumptions = ["the Starlark value implementation (equality, hashing) is trusted", "declared lengths are bounded by the input size",
                    "the harness's byte-stream lexer is an independent re-implementation of the wire format"]
     return vlib.conclude(prop, tier, "model_checking", cov, t0, viols, assumptions,
-                         lambda v: {"family": "pickle", "property": prop, "violation": v})
+                         lambda v: {"family": "pickle", "property": prop, "violation": {k: x for k, x in v.items() if k != "sig"}})
